@@ -10,8 +10,9 @@ META = dict(
           'tainted_opaque, tainted_volatile lvalue, nullptr, sandbox function address, sandbox_callback) and every boundary value incl. values that do not fit the '
           'guest type (must abort before the call: guest call count 0); per return kind guest bit patterns incl. values that do not fit the application type; '
           'guest functions are written against this generator\'s own ABI table (lp32 and wide). H: BFS over histories on three instances bound to two libraries '
-          'exporting the same names (mbox by-name; dylib with per-instance file copies): invoke, take a function address, pass it back, destroy, re-create with '
-          'another library. states = history states, transitions = history operations; evaluations = generated cases + history checks.'),
+          'exporting the same names (mbox by-name; mbox with function addresses in an internal representation distinct from the invocation pointer, i.e. needs_internal_lookup_symbol; '
+          'dylib with per-instance file copies): invoke, invoke the name whose address is taken, take a function address, pass it back, destroy, re-create with another library; '
+          'states are deduplicated on the model state and the CONTENT of the symbol caches. states = history states, transitions = history operations; evaluations = generated cases + history checks.'),
     assumptions=['signature shapes beyond 2 parameters are covered by rotation, not exhaustively', 'struct fields that do not fit the guest type are left to C08 (they terminate inside noexcept members)'],
 )
 
@@ -31,6 +32,8 @@ def run(ctx):
         for i, p in enumerate(paths):
             specs.append(('c11_%s_%d' % (abi, i), p, dict(opt='-O0')))
     specs.append(('c11h_mbox', 'c11h.cpp', dict(opt='-O1', access=True)))
+    # model backend whose function ADDRESSES are an internal representation distinct from the invocation pointer (needs_internal_lookup_symbol)
+    specs.append(('c11h_mbox_internal', 'c11h.cpp', dict(opt='-O1', access=True, defs=['MBOX_INTERNAL_LOOKUP'])))
     specs.append(('c11h_dylib', 'c11h.cpp', dict(opt='-O1', access=True, defs=['BK_DYLIB', 'GUEST_LIB_DIR="%s"' % gd], link=['-ldl'])))
     bins = ctx.build_many(specs)
     ctx.extra_cov['programs'] = total
@@ -39,4 +42,5 @@ def run(ctx):
     with cf.ThreadPoolExecutor(max_workers=16) as ex:
         list(ex.map(lambda n: ctx.run(bins[n], [], parts=1, workers=1), names))
     ctx.run(bins['c11h_mbox'], ['--thorough'] if ctx.thorough else [], parts=1)
+    ctx.run(bins['c11h_mbox_internal'], ['--thorough'] if ctx.thorough else [], parts=1)
     ctx.run(bins['c11h_dylib'], ['--thorough'] if ctx.thorough else [], parts=1)
